@@ -308,7 +308,7 @@ def read_ndjson(text):
 
 # ---------------------------------------------------------------- worker pool (hang / crash isolating)
 
-def run_pool(args, jobs, workers=12, job_timeout=20.0, env=None, total_timeout=7200):
+def run_pool(args, jobs, workers=12, job_timeout=20.0, env=None, total_timeout=7200, retry_hangs=True):
     """Runs `gvh <args>` worker processes speaking the serve protocol (see harness common::serve).
     jobs: list of dicts with unique 'id'.  A job during which the worker stops answering for job_timeout seconds
     gets status 'hang'; a job during which the worker dies gets status 'crash' (with the signal / exit status and
@@ -400,4 +400,14 @@ def run_pool(args, jobs, workers=12, job_timeout=20.0, env=None, total_timeout=7
         t.start()
     for t in ths:
         t.join()
+    if retry_hangs:
+        # a job that did not answer in time is repeated with few workers and three times the limit before it counts
+        # as a hang: a loaded machine must not look like a defect
+        hung = [j for j in jobs if results.get(j["id"], {}).get("status") == "hang"]
+        if hung:
+            again = run_pool(args, hung, workers=min(4, len(hung)), job_timeout=job_timeout * 3, env=env,
+                             total_timeout=total_timeout, retry_hangs=False)
+            for j in hung:
+                if again.get(j["id"], {}).get("status") not in (None, "hang"):
+                    results[j["id"]] = again[j["id"]]
     return results
